@@ -14,8 +14,8 @@ Tolerances (u = 2^-53, N = H*W, K = kH*kW, s = sum|psf|, lg = log2(N) + 2):
 
 * pure data movement (matrix builders, channel independence/permutation): bit-for-bit;
 * blur:  an FFT of length N has normwise error <= c*u*log2(N)*||x||_2 and |H_hat| <= s, so
-  ||fl(ifft(fft(x) * H_hat)) - y|| <= C_FFT*u*lg*s*||x||  (the K-term loop oracle adds <= K*u*s*||x||,
-  covered by C_FFT*lg >= K for all generated sizes... it is added explicitly as K*u*s*||x||);
+  ||fl(ifft(fft(x) * H_hat)) - y|| <= (C_FFT*lg + K)*u*s*||x||  (the K*u*s*||x|| term covers the rounding
+  of the K-term loop oracle itself);
 * FFT restoration, normal-equation residual (backward form, no condition number): in the
   frequency domain the residual is (|H|^2+lam) * dX_hat; the error of fft(B) enters multiplied by
   conj(H) (<= s), the error of H_hat enters as dH * B_hat * O(1) (<= u*lg*s*||B||) and the final
@@ -30,7 +30,8 @@ Tolerances (u = 2^-53, N = H*W, K = kH*kW, s = sum|psf|, lg = log2(N) + 2):
   for ANY kernel placement, so the defect of linearity is pure FFT rounding:
       <= C_LIN*u*lg*(1/(2 sqrt(lam)))*(|a| ||B1|| + |b| ||B2|| + ||a B1 + b B2||);
 * lam = 0 on invertible blurs: X_hat = B_hat/H_hat, relative errors u*lg*(s/smin) from B_hat, H_hat:
-      ||X - X_true|| <= C_INV*u*(lg+K)*(s/smin)^2*||X_true||   (one extra factor s/smin of headroom).
+      ||X - X_true|| <= C_INV*u*(lg+K)*(s/smin)^2*||X_true||   (one extra factor s/smin of headroom);
+  matrix path with lam = 0: pinv(A^T A) has forward error N*u*cond(A)^2, bound 4*C_INV*u*N*(s/smin)^4*||X_true||.
 """
 import math
 
@@ -49,7 +50,7 @@ U_LD = float(np.finfo(LD).eps)      # 1.08e-19 on x86-64; 2.2e-16 where longdoub
 
 C_FFT = 200.0
 C_NE = 200.0
-C_FWD = 200.0
+C_FWD = 400.0
 C_MAT = 300.0
 C_LIN = 200.0
 C_INV = 300.0
@@ -421,7 +422,7 @@ def check_restore_fft(case):
     A = a_def(psf, H, W)
     bn, xn = fro(B), fro(X)
     res = normal_eq_residual(A, X, B, lam)
-    nb = C_NE * U_ * lg(N) * (s * bn + (s * s + lam) * xn) + 1e-300
+    nb = (C_NE * U_ * lg(N) + 4 * N * U_LD) * (s * bn + (s * s + lam) * xn) + 1e-300   # 2nd term: our own evaluation
     out.le(f"{site}:(A^T A + lam I) X = A^T B for the definitional A", res, nb,
            f"normal-equation residual, lam={lam}, ||B||={bn:.3e}, ||X||={xn:.3e}, psf {psf.shape} on {H}x{W}")
     # forward comparison with LAPACK on the definitional matrix
@@ -477,7 +478,7 @@ def check_restore_matrix(case):
     bn, xn = fro(B), fro(X)
     en = fro(A.T @ vecs(B))
     res = normal_eq_residual(A, X, B, lam)
-    mb = C_MAT * N * U_ * condT * (en + tn * xn) + 1e-300
+    mb = C_MAT * N * U_ * condT * (en + tn * xn) + 4 * N * U_LD * (smax * bn + tn * xn) + 1e-300
     where = "generic real A" if generic else "definitional A"
     out.le(f"{site}:(A^T A + lam I) X = A^T B ({where})", res, mb,
            f"normal-equation residual, lam={lam}, cond(T)={condT:.2e}, N={N}")
@@ -693,7 +694,7 @@ def check_lam0(case):
     ok, Xm = out.call("qslst_restore_matrix(lam=0)", L.qslst.qslst_restore_matrix, Bd, A, case["lam0"])
     if ok and img_ok("qslst_restore_matrix(lam=0)", out, Xm, X.shape):
         out.le("qslst_restore_matrix(lam=0):inverts the definitional blur", fro(Xm - X),
-               C_INV * U_ * N * rel ** 4 * xn + 1e-300, f"s/smin={rel:.3g}")
+               4 * C_INV * U_ * N * rel ** 4 * xn + 1e-300, f"s/smin={rel:.3g}")
     out.sample = {"H": H, "W": W, "psf_shape": list(psf.shape), "kind": case["psf"]["kind"], "s_over_smin": rel}
     return out
 
@@ -724,7 +725,7 @@ def check_psf_builders(case):
                         and P.dtype == np.float64 and bool(np.all(np.isfinite(P))), f"got {getattr(P, 'shape', None)}"):
             return out
         out.true(f"{site}:non-negative", bool(np.all(P >= 0.0)), "negative tap")
-        out.le(f"{site}:unit sum", abs(float(np.sum(P.astype(LD))) - 1.0), 16 * Kk * Kk * U_, "sum(psf) != 1")
+        out.le(f"{site}:unit sum", abs(float(np.sum(P.astype(LD))) - 1.0), 32 * Kk * Kk * U_, "sum(psf) != 1")
         pk = float(P[r, r])
         out.true(f"{site}:peak at the centre tap", pk == float(P.max()) and pk > 0, "maximum not at (r, r)")
         sym = max(float(np.max(np.abs(P - P.T))), float(np.max(np.abs(P - P[::-1, :]))),
@@ -736,7 +737,7 @@ def check_psf_builders(case):
             for j in range(Kk):
                 d2 = (i - r) ** 2 + (j - r) ** 2
                 worst = max(worst, abs(float(P[i, j]) / pk - math.exp(-d2 / (2.0 * sig * sig))))
-        out.le(f"{site}:Gaussian profile exp(-d^2/(2 sigma^2))", worst, 256 * U_, f"radius={r}, sigma={sig}")
+        out.le(f"{site}:Gaussian profile exp(-d^2/(2 sigma^2))", worst, 512 * U_, f"radius={r}, sigma={sig}")
         out.label("gaussian", f"radius={r}")
         out.nontrivial = r >= 1
         out.sample = {"radius": r, "sigma": sig, "peak": pk}
@@ -754,7 +755,7 @@ def check_psf_builders(case):
         Kk = P.shape[0]
         out.true(f"{site}:size tightly contains the line (L or L+1)", Lc <= Kk <= Lc + 1, f"K={Kk} for length {Lc}")
         out.true(f"{site}:non-negative", bool(np.all(P >= 0.0)), "negative tap")
-        out.le(f"{site}:unit sum", abs(float(np.sum(P.astype(LD))) - 1.0), 16 * Kk * Kk * U_, "sum(psf) != 1")
+        out.le(f"{site}:unit sum", abs(float(np.sum(P.astype(LD))) - 1.0), 32 * Kk * Kk * U_, "sum(psf) != 1")
         cnt = P * Lc
         out.le(f"{site}:L samples of weight 1/L", float(np.max(np.abs(cnt - np.rint(cnt)))), 8 * Lc * U_,
                "taps are not multiples of 1/L")
